@@ -213,7 +213,7 @@ EXPLANATION = ("Information-flow (def-use) contract checked on the real AST: the
                "representation. No SMT queries are needed; obligations are syntactic facts about the current source. Level 'other': a sufficient static condition plus bounded numeric comparison.")
 MANIFEST = {
     "category": "other",
-    "text": "A def-use (non-interference) contract is checked on the current AST of generator.py and model.py: unroll_loops and inline_functions are read once to define map_mode / function_mode, which are only ever passed as the mode arguments of CasADi's map/call; expand_mx only selects whether the four output functions are wrapped in .expand(), guards one documented error, or appears together with expand_vectors. Any other read (a branch, a comparison, a dedup keyed on the mode, ...) fails a named obligation. The numeric equality itself is CasADi's and is sampled by a bounded replay over all 8 option combinations on models with loops, functions and delays.",
+    "text": "A def-use (non-interference) contract is checked on the current AST of generator.py and model.py: unroll_loops and inline_functions are read once to define map_mode / function_mode, which are only ever passed as the mode arguments of CasADi's map/call; expand_mx only selects whether the four output functions are wrapped in .expand(), guards one documented error, or appears together with expand_vectors. Any other read (a branch, a comparison, a dedup keyed on the mode, ...) fails a named obligation. The numeric equality itself is CasADi's and is sampled by a bounded replay over all 8 option combinations on models with loops, functions and delays. ForLoop may only evaluate a subscript expression of the loop variable (ca.Function output called on the loop values), never inspect or differentiate it (def-use through helper methods and local functions).",
     "note": "Static sufficient condition, not a proof of numeric equivalence; CasADi's three transformations are trusted to preserve values; the expand_mx x expand_vectors interaction is only sampled.",
     "technique": "contract-based verification of a frame / information-flow condition: syntactic def-use obligations over the real source (no solver), plus bounded replay",
 }
